@@ -40,6 +40,12 @@ LookupOn(r) ==
     /\ seen' = [seen EXCEPT ![r] = Append(@, PickAt(r, cur[r]))]
     /\ cur' = [cur EXCEPT ![r] = @ + 1]
     /\ sched' = Append(sched, r)
+\* A connection (an HTTP request, a TCP connection, a TLS connection routed by its server name,
+\* a gRPC call) arriving on a listener of ANY kind is exactly ONE lookup of its route: a listener
+\* that asks the table more than once per connection (to find out the protocol, to decide whether
+\* to tunnel) must not take more than one turn of the ring.
+ListenerKinds == {"http", "https", "tcp", "tcp+sni", "https+tcp+sni", "grpc"}
+Connect(kind, r) == kind \in ListenerKinds /\ LookupOn(r)
 Next == \E r \in Routes : LookupOn(r)
 Spec == Init /\ [][Next]_vars
 
